@@ -292,8 +292,15 @@ impl Client for DribbleClient {
             RequestBody::Empty => RequestBody::Empty,
             RequestBody::Fixed(b) => RequestBody::Fixed(b),
             RequestBody::Streaming(mut w) => {
+                // a first attempt that is abandoned, then — the body says it can be written again — the real one
+                let mut first = Dribble { buf: vec![], max: self.1 };
+                ClientWriteBody::write_body(&mut *w, &mut first)?;
                 let mut d = Dribble { buf: vec![], max: self.1 };
-                ClientWriteBody::write_body(&mut *w, &mut d)?;
+                if ClientWriteBody::reset(&mut *w) {
+                    ClientWriteBody::write_body(&mut *w, &mut d)?;
+                } else {
+                    d.buf = first.buf;
+                }
                 RequestBody::Streaming(Box::new(SliceBody(d.buf)))
             }
         };
